@@ -34,7 +34,7 @@ def known_class(k, case):
     if cls == "checkpoint-with-open-transaction":
         return cls in case.meta.get("classes", []) and "~CRASH@" in seg and " got " in seg
     if cls == "catalog-large-cells":
-        return "probe(CREATE=>err:other)" in seg
+        return "probe(CREATE=>err:overflowframe)" in seg
     return False
 
 
